@@ -14,7 +14,7 @@ ASSUMPTIONS = [
     "the collision invariant (no path written by two different parameter sets on one disk) does not depend on the name format at all",
 ]
 RULE = ("run = 6-40 generator invocations (CLI after restart; manual entry point) on one simulated disk with whole-percent "
-        "probabilities, biased to neighbouring percentages and to repeated sizes/seeds so that names can collide; fixed runs sweep "
+        "probabilities, biased to neighbouring percentages and to repeated sizes/seeds so that names can collide, some under INFO/DEBUG logging, deep stacks, injected OSErrors, and from one long-lived driver process; fixed runs sweep "
         "k = 1..99 exhaustively for each of the four probability fields; after each: the created path states every parameter, and "
         "no path has been written by two different parameter sets (a silently lost file); non-trivial = >= 2 different parameter "
         "sets differing in one field only; distinct = hash of the parameter-set sequence")
@@ -46,6 +46,7 @@ def gen(rng, tier, ctx):
         base[k] = pools.pct(rng)
     opl = []
     cur = dict(base)
+    session = rng.random() < 0.3        # a driver script calling main() repeatedly in one process
     for _ in range(rng.randint(6, 40 if tier == "thorough" else 20)):
         r = rng.random()
         if r < 0.12:
@@ -80,7 +81,18 @@ def gen(rng, tier, ctx):
             a, b_ = rng.sample(["rb", "lb", "tb", "lt"], 2)
             p[a], p[b_] = p[b_], p[a]
         cur = p if rng.random() < 0.7 else cur
-        opl.append({"op": "gen_cli", "params": p, "entropy": rng.randint(0, 2 ** 32)})
+        op = {"op": "gen_cli", "params": p, "entropy": rng.randint(0, 2 ** 32)}
+        if session and rng.random() < 0.8:
+            op["same_process"] = True
+        if rng.random() < 0.12:
+            op["env"] = common.gen_env(rng, True)
+            if rng.random() < 0.6:
+                op["env"]["log"] = rng.choice(["i", "d", "d"])
+        f = rng.random()
+        if f < 0.08:
+            op["fs_faults"] = [{"on": rng.choice(["write", "write", "close", "open"]), "mode": "w", "nth": rng.randint(1, 8),
+                                "errno": rng.choice(["ENOSPC", "EIO", "EACCES"]), "partial": rng.choice([0, 0.5])}]
+        opl.append(op)
     return {"cfg": {"klass": "plain"}, "ops": opl}
 
 
@@ -130,15 +142,36 @@ def execute(spec, w, ctx):
         if any(want[k] is None for k in want):
             discards["not-whole-percent"] = discards.get("not-whole-percent", 0) + 1
             continue
-        out, before, after, changed, wopens = genops.run_gen(w, op, {})
+        cfg = common.env_cfg(op)
+        if op.get("fs_faults"):
+            cfg["fs_faults"] = op["fs_faults"]
+        out, before, after, changed, wopens = genops.run_gen(w, op, cfg)
+        # every path this invocation put data into (opens, writes through handles opened earlier, changed files)
+        touched = sorted(set(wopens) | set(changed) | {e[2] for e in out["fs_events"] if e[1] == "write"})
         what = ("create_sg_from_board(...) with " + str({k: v for k, v in want.items()})) if kind == "gen_manual" else \
             "`roberta_generator.py %s`" % " ".join(ops.gen_argv(op["params"])[1:])
         events.append([i_op, kind, out["status"], sorted(set(wopens))])
         v = None
+        wset = canon(want)
+        for rel in touched:
+            if rel in written and written[rel] != wset:
+                v = viol("I17.2", i_op, "%s put data into %s, which holds the file of a different parameter set %s: that file is silently lost" % (
+                    what, rel, written[rel]), "shared-path")
+                break
+        if v is not None:
+            res["violation"] = v
+            break
+        for rel in touched:
+            written[rel] = wset
         paths = sorted(set(wopens))
         if out["status"] != "ok" or len(paths) != 1:
-            # not C17's business (C11/C15 judge crashes and file counts); nothing to name-check
+            # crashes and file counts are C11/C15's business; nothing to name-check
             discards["no-single-file"] = discards.get("no-single-file", 0) + 1
+            if out["status"] == "ok" and not touched:
+                v = viol("I17.1", i_op, "%s exited normally but no file carries its parameters (nothing was written)" % what,
+                         "no-file")
+                res["violation"] = v
+                break
             continue
         rel = paths[0]
         got = genops.parse_name(rel)
@@ -148,11 +181,6 @@ def execute(spec, w, ctx):
             k = wrong[0]
             v = viol("I17.1", i_op, "%s created %s: the name states %s=%r, the parameter was %r" % (
                 what, rel, k, got.get(k), want[k]), "name-misstates", field=k)
-        wset = canon(want)
-        if v is None and rel in written and written[rel] != wset:
-            v = viol("I17.2", i_op, "%s wrote %s, which already held the file of a different parameter set %s: that file is silently lost" % (
-                what, rel, written[rel]), "shared-path")
-        written[rel] = wset
         sets.append(wset)
         if v is not None:
             res["violation"] = v
